@@ -447,7 +447,7 @@ def encodings_for(charset: str, rng: random.Random) -> T.Optional[str]:
     return rng.choice(pool)
 
 
-def build_project(rng: random.Random, src: str, ntemplates: int, nheaders: int, bag: Bag) -> T.Tuple[list, list]:
+def build_project(rng: random.Random, src: str, ntemplates: int, nheaders: int, bag: Bag, nseq: int = 4) -> T.Tuple[list, list]:
     mb: T.List[str] = ["project('c14 templates', meson_version: '>=1.3.0')", '']
     files: T.Dict[str, T.Union[str, bytes]] = {}
     tcases: T.List[dict] = []
@@ -526,9 +526,92 @@ def build_project(rng: random.Random, src: str, ntemplates: int, nheaders: int, 
         hcases.append({'name': f'{name}.{ext}', 'data': data, 'desc': h['desc'] if style == 'set' else {},
                        'output_format': h['output_format'], 'macro_name': h['macro_name'], 'shape': h['shape']})
         bag.cells['header-format:' + h['output_format']] = bag.cells.get('header-format:' + h['output_format'], 0) + 1
+    for q in range(nseq):
+        add_sequence(rng, q, mb, files, tcases, hcases, bag)
     files['meson.build'] = '\n'.join(mb) + '\n'
     runner.write_tree(src, files)
     return tcases, hcases
+
+
+def add_sequence(rng: random.Random, q: int, mb: T.List[str], files: T.Dict[str, T.Union[str, bytes]],
+                 tcases: T.List[dict], hcases: T.List[dict], bag: Bag) -> None:
+    """One configuration_data() object used by several configure_file() calls with merge_from() in between.
+    After every step the expected content is that of the data AT THAT MOMENT (model kept here)."""
+    ops = G.gen_sequence(rng)
+    universe = ops[-1][1]
+    model: T.Dict[str, T.Tuple[T.Any, T.Optional[str]]] = {}
+    obj = f'sq_{q}'
+    step = 0
+    nmerge = 0
+    history: T.List[str] = []
+    start = len(mb)
+    seq_files: T.Dict[str, str] = {}
+
+    def emit_entries(target: str, entries: T.Dict[str, T.Tuple[T.Any, T.Optional[str]]]) -> T.Dict[str, T.Tuple[T.Any, T.Optional[str]]]:
+        """meson statements filling `target`; returns what the object then holds for these keys."""
+        held: T.Dict[str, T.Tuple[T.Any, T.Optional[str]]] = {}
+        for k, (v, d) in entries.items():
+            dk = f', description: {mstr(d)}' if d else ''
+            r = rng.random()
+            if isinstance(v, str) and r < 0.2 and '"' not in v and '\\' not in v:
+                mb.append(f'{target}.set_quoted({mstr(k)}, {mstr(v)}{dk})')
+                held[k] = ('"' + v + '"', d)
+            elif isinstance(v, bool) and r < 0.3:
+                mb.append(f'{target}.set10({mstr(k)}, {mval(v)}{dk})')
+                held[k] = (1 if v else 0, d)
+            else:
+                mb.append(f'{target}.set({mstr(k)}, {mval(v)}{dk})')
+                held[k] = (v, d)
+        return held
+
+    for op in ops[:-1]:
+        if op[0] == 'init':
+            mb.append(f'{obj} = configuration_data()')
+            model.update(emit_entries(obj, op[1]))
+            history.append('init:%d' % len(op[1]))
+        elif op[0] == 'merge':
+            ex = f'{obj}_x{nmerge}'
+            nmerge += 1
+            mb.append(f'{ex} = configuration_data()')
+            held = emit_entries(ex, op[1])
+            mb.append(f'{obj}.merge_from({ex})')
+            model.update(held)       # "copies all entries from that object to the current"
+            history.append('merge:%d' % len(held))
+            bag.cells['sequence:merge_from'] = bag.cells.get('sequence:merge_from', 0) + 1
+        else:
+            _emit, kind, macro = op
+            data = {k: v for k, (v, _d) in model.items()}
+            desc = {k: d for k, (_v, d) in model.items() if d}
+            name = f'{obj}_s{step}'
+            history.append('emit:' + kind)
+            shape = ('sequence', tuple(history))
+            bag.cells['sequence:emit-' + kind] = bag.cells.get('sequence:emit-' + kind, 0) + 1
+            bag.tally.add('monitor:sequence-steps')
+            if kind == 'template':
+                text = ''.join(f'#mesondefine {k}\n{k}=[@{k}@]\n' for k in sorted(universe) + ['NEVER_SET'])
+                case = {'fmt': 'meson', 'text': text, 'data': data, 'markers': {}, 'charset': 'ascii',
+                        'cells': [], 'shape': shape}
+                real = do_case(bag, case, mode='file')
+                bag.shapes.add(common.digest(shape))
+                files[name + '.in'] = text.encode('utf-8')
+                seq_files[name + '.in'] = text
+                mb.append(f"configure_file(input: '{name}.in', output: '{name}.out', configuration: {obj})")
+                if real[0] == 'ok':
+                    tcases.append({'name': name, 'case': case, 'encoding': None, 'inproc_out': ''.join(real[1]),
+                                   'inproc_missing': sorted(real[2]), 'style': 'sequence'})
+            else:
+                ext = {'c': 'h', 'nasm': 'asm', 'json': 'json'}[kind]
+                kw = [f"output: '{name}.{ext}'", f'configuration: {obj}']
+                if kind != 'c':
+                    kw.append(f"output_format: '{kind}'")
+                if macro:
+                    kw.append(f"macro_name: '{macro}'")
+                mb.append('configure_file(' + ', '.join(kw) + ')')
+                hcases.append({'name': f'{name}.{ext}', 'data': data, 'desc': desc, 'output_format': kind,
+                               'macro_name': macro, 'shape': shape,
+                               'sequence': {'history': list(history), 'meson_build': mb[start:], 'files': dict(seq_files),
+                                            'output': f'{name}.{ext}'}})
+            step += 1
 
 
 def parse_missing_warnings(out: str) -> T.Dict[str, T.Set[str]]:
@@ -639,7 +722,8 @@ def worker_project(job: T.Tuple[int, int, int, int]) -> dict:
             if why is not None:
                 bag.note('header:' + why.split(':')[0],
                          {'mode': 'header', 'data': hc['data'], 'desc': hc['desc'], 'output_format': hc['output_format'],
-                          'macro_name': hc['macro_name'], 'detail': {'why': why, 'file': text}})
+                          'macro_name': hc['macro_name'], 'sequence': hc.get('sequence'),
+                          'detail': {'why': why, 'file': text}})
         if idx == 0:
             bag.samples.append({'project_meson_build_head': mbtext[:700]})
     finally:
@@ -770,6 +854,24 @@ def replay(chk: common.Check, path: str) -> int:
     mode = w.get('mode')
     print(f'[C14] replay {path}: mode={mode} mechanism={mech}')
     src = w.get('minimised') or w
+    if mode == 'header' and w.get('sequence'):
+        sq = w['sequence']
+        tmp = common.scratch_dir('c14r')
+        os.makedirs(os.path.join(tmp, 'src'))
+        tree: T.Dict[str, T.Union[str, bytes]] = {k: v.encode('utf-8') for k, v in sq['files'].items()}
+        tree['meson.build'] = "project('r', meson_version: '>=1.3.0')\n" + '\n'.join(sq['meson_build']) + '\n'
+        runner.write_tree(os.path.join(tmp, 'src'), tree)
+        r = runner.meson(['setup', '--backend=none', os.path.join(tmp, 'b')], cwd=os.path.join(tmp, 'src'))
+        why: T.Optional[str] = 'setup failed'
+        if r.rc == 0:
+            with open(os.path.join(tmp, 'b', sq['output']), encoding='utf-8', newline='') as f:
+                text = f.read()
+            why = R.check_header(text, w['data'], w['output_format'], w.get('macro_name'))
+            if why is None and w['output_format'] != 'json':
+                why = check_descriptions(text, {'output_format': w['output_format'], 'desc': w.get('desc') or {}})
+        print('[C14] replay: history', sq['history'], '-> header verdict:', why)
+        print('[C14] replay: witness', 'STILL FAILS' if why else 'no longer fails')
+        return 1 if why else 0
     if mode == 'header':
         bag = Bag()
         tmp = common.scratch_dir('c14r')
@@ -932,7 +1034,7 @@ def main() -> int:
         ('monitor:scanner-equality', 10000), ('monitor:copy-through', 10000), ('monitor:no-rescan', 2000),
         ('monitor:line-ending', 10000), ('monitor:missing-set', 2000), ('monitor:define-render', 1000),
         ('monitor:define-line-ending', 1000), ('monitor:file-output-equals', 100), ('monitor:missing-warning', 100),
-        ('monitor:header-keys', 30),
+        ('monitor:header-keys', 30), ('monitor:sequence-steps', 100),
         ('contract:do_conf_str:confstr_line_count_preserved', 1000),
         ('contract:do_replacement_meson:repl_meson_agrees_with_scanner', 10000),
         ('contract:do_define_meson:define_has_documented_form', 500),
